@@ -41,6 +41,21 @@ def run(R):
         r3(R, tus, nm, lm)
     if R.want("C13.R4"):
         r4(R, tus)
+    if R.want("C13.R5"):
+        R.rule("C13.R5", "neighbour windows are computed in int: no difference (column - 1, row - 1, ...) is stored into an unsigned "
+                         "variable in localmaxlabel.c or sparse_localmaxlabel / sparse_smooth (a pixel in column 0 or row 0 would see "
+                         "a window starting at 65535)")
+        n = 0
+        for f in cfront.all_funcs(tus):
+            if f.file == FILE or f.name in ("sparse_localmaxlabel", "sparse_smooth", "sparse_connectedpixels"):
+                n += 1
+                for line, ty, name, rhs in crules.unsigned_differences(f):
+                    R.violation("C13.R5", f.file, line, f.name, "%s %s = %s" % (ty, name, rhs),
+                                "the window start is evaluated in int and converted to %s: for a pixel in the first column / row it wraps, "
+                                "the cursor runs past the row above and the pixel (and the rest of its row) loses its links upwards" % ty)
+                R.inst("C13.R5", "%s:%s no unsigned store of a difference" % (f.file, f.name))
+        if n < 4:
+            R.fail("C13.R5 examined %d functions, expected at least 4" % n)
 
 
 # --------------------------------------------------------------------------------------------------
